@@ -310,7 +310,82 @@ func c18Regeneration(c *Ctx, p *Prog) {
 	}
 }
 
+// c18FieldAgreement: whatever a start reads back from the persisted JSON object
+// must be something EVERY way of writing that object fills in: the generated
+// identity (newJSONServerState) and the identity given by arguments
+// (serverStateFromArgs) — otherwise a state written by one kind of start is
+// rejected (or misread) by a later start of the other kind.
+func c18FieldAgreement(c *Ctx, p *Prog) {
+	const tJS = "transports/obfs4.jsonServerState"
+	ob := c.Obl("R3", tJS+"#reader-writer-agreement", "every field of the persisted state that the load path reads is filled in by both writers (generation and explicit arguments): a later start must not depend on a field an earlier start may have left empty")
+	sa := p.Func("transports/obfs4:serverStateFromArgs")
+	if sa == nil {
+		ob.Undecide("serverStateFromArgs not found")
+		return
+	}
+	// writers: functions that store a field of the object, other than through decoding
+	writersOf := map[string]map[*ssa.Function]bool{}
+	readersOf := map[string][]string{}
+	for _, fn := range p.Funcs {
+		allInstrs(fn, func(in ssa.Instruction) {
+			fa, ok := in.(*ssa.FieldAddr)
+			if !ok {
+				return
+			}
+			k, ok := fieldKeyOf(fa.X.Type(), fa.Field)
+			if !ok || k.Type != tJS {
+				return
+			}
+			for _, r := range *fa.Referrers() {
+				switch x := r.(type) {
+				case *ssa.Store:
+					if x.Addr == ssa.Value(fa) {
+						if writersOf[k.Field] == nil {
+							writersOf[k.Field] = map[*ssa.Function]bool{}
+						}
+						writersOf[k.Field][fn] = true
+					}
+				case *ssa.UnOp:
+					readersOf[k.Field] = append(readersOf[k.Field], p.FuncKey(fn)+" at "+p.InstrPos(x))
+				}
+			}
+		})
+	}
+	// the writers that create a complete state: every function that stores NodeID (the identity)
+	full := writersOf["NodeID"]
+	if len(full) < 2 {
+		ob.Violate("%d functions fill in the persisted identity (expected the generator and the argument path)", len(full))
+		return
+	}
+	bad := ""
+	var fields []string
+	for f := range readersOf {
+		fields = append(fields, f)
+	}
+	sort.Strings(fields)
+	for _, f := range fields {
+		for w := range full {
+			if !writersOf[f][w] {
+				// the iat-mode default is the zero value: a writer that leaves it alone writes 0 = iatNone
+				if f == "IATMode" {
+					continue
+				}
+				bad = fmt.Sprintf("field %s is read back (%s) but %s, which also persists an identity, never sets it", f, readersOf[f][0], p.FuncKey(w))
+			}
+		}
+	}
+	if len(fields) < 3 && bad == "" {
+		bad = fmt.Sprintf("only %d fields are read back", len(fields))
+	}
+	if bad != "" {
+		ob.Violate("%s", bad)
+	} else {
+		ob.HoldNT("read back: %v; each set by all %d identity writers", fields, len(full))
+	}
+}
+
 func c18WriteBack(c *Ctx, p *Prog) {
+	c18FieldAgreement(c, p)
 	ob := c.Obl("R3", "transports/obfs4:serverStateFromJSONServerState#write-back", "every successful start writes the (possibly overridden) state back: the function that builds the server state succeeds only if writeJSONServerState succeeded, with the same JSON object the state was built from")
 	fn := p.Func("transports/obfs4:serverStateFromJSONServerState")
 	wr := p.Func("transports/obfs4:writeJSONServerState")
